@@ -4,6 +4,25 @@ from dsim import session as SE, harness as H
 from checks import c20_gen as G
 
 
+def _plain(n):
+    t = n[0]
+    if t in ('v', 'i', 'f', 'o', 'c'):
+        return n[1]
+    if t == 'l':
+        return [_plain(x) for x in n[1]]
+    if t == 'd':
+        return {k.strip("'"): _plain(v) for k, v in n[1]}
+    if t == 'a':
+        return n[2].tolist()
+    return t
+
+
+def _oracle_verdict(n):
+    if n[0] == 'd' and any(k == "'ok'" for k, _ in n[1]):
+        return _plain(n)
+    return None
+
+
 def frames_by_client(res):
     done = collections.defaultdict(dict)
     begun = None
@@ -111,6 +130,15 @@ def evaluate(pool, lane, job, use_ref_for_session=False):
             if f.get('alias'):
                 findings.append({'class': 'alias', 'cid': cid, 'k': k, 'op': f['op'], 'args': f['alias'],
                                  'message': '%s returned an array sharing memory with argument(s) %s' % (f['op'], f['alias'])})
+            ov = _oracle_verdict(f['nf'])
+            if ov is not None:
+                stats['oracle_ops'] += 1
+                stats['oracle_' + f['op']] += 1
+                if ov.get('skipped'):
+                    stats['oracle_skipped'] += 1
+                if not ov.get('ok', True):
+                    findings.append({'class': 'oracle-fails', 'cid': cid, 'k': k, 'op': f['op'], 'layout': [],
+                                     'message': '%s: %s' % (f['op'], {kk: vv for kk, vv in ov.items() if kk != 'ok'})})
             if k not in refd or cid in first_bad:
                 continue
             rf = refd[k]
